@@ -76,6 +76,9 @@ class Scatterers(Scatterer):
         '''
         if scatterers is None:
             scatterers = []
+        elif not isinstance(scatterers, list):
+            # e.g. a tuple: add() and from_parameters() work with a list
+            scatterers = list(scatterers)
         self.scatterers = scatterers
 
     def add(self, scatterer):
